@@ -7,6 +7,7 @@ import (
 	"diagonal.works/b6"
 	"diagonal.works/b6/ingest"
 	pb "diagonal.works/b6/proto"
+	"diagonal.works/b6/verifhook"
 )
 
 type AppliedChange struct {
@@ -67,6 +68,7 @@ func (e *Evaluator) EvaluateExpression(expression b6.Expression, root b6.Feature
 
 	if change, ok := v.(ingest.Change); ok {
 		e.Lock.RUnlock()
+		verifhook.Point("evaluator.evaluate.upgrade")
 		e.Lock.Lock()
 		var modified b6.Collection[b6.FeatureID, b6.FeatureID]
 		modified, err = change.Apply(world)
